@@ -15,6 +15,11 @@ LEVEL = "exploration"
 QUICK_SHARDS = 4
 MIN_NONTRIVIAL = 50
 RULE = (
+    "(0) molecule objects as the library's own exporter writes them (random "
+    "skeletons with several tetrahedral / square-planar / TBP / octahedral "
+    "centres, two complexes in one object, centres with unspecified "
+    "arrangement = chiral tag without permutation label) renumbered with "
+    "Chem.RenumberAtoms: both imports equal, equal hashes. "
     "(a) organic molecules built constructively as RWMol (C, N, O, S, "
     "halogens; chains, ring closures, ring templates incl. aromatic; double "
     "bonds) with a drawn configuration for every potential stereo element, "
@@ -364,9 +369,72 @@ def check_labels(ctx, case):
     return want
 
 
+def gen_exported(data: bytes):
+    """a molecule object as the library's own exporter writes it (several
+    non-tetrahedral centres, some with unspecified arrangement = chiral tag
+    without permutation label), to be renumbered"""
+    from vp.props import c13
+    tp = S.Tape(data)
+    if tp.chance(128):
+        m = c13.gen_skeleton(tp)
+    else:
+        # two complexes in one molecule object
+        m1, m2 = c13.gen_complex(tp), c13.gen_complex(tp)
+        off = max(m1.atoms) + 1
+        m2 = m2.relabel({a: a + off for a in m2.atoms})
+        from vp.model import Model
+        m = Model.compose("SMG", [m1, m2])
+        if tp.chance(128):
+            k = tp.pick(list(m.atom_stereo))
+            d = m.atom_stereo[k]
+            m.atom_stereo[k] = (d[0], d[1], None)
+    n = len(m.atoms)
+    return {"kind": "exported", "g": S.shuffled_recipe(tp, m),
+            "perm": tp.shuffle(range(n)), "opts": list(tp.pick(OPTS))}
+
+
+def check_exported(ctx, case):
+    from rdkit import Chem
+    from vp import recipes as rc
+    m = rc.require_valid(case["g"])
+    g = rc.build(case["g"])
+    with guard("C12/exported/to_rdmol"):
+        mol, _ = g._to_rdmol(generate_bond_orders=False)
+    n = mol.GetNumAtoms()
+    perm = case["perm"]
+    if sorted(perm) != list(range(n)):
+        raise HarnessError("perm")
+    opts = tuple(case["opts"])
+    if opts[2]:
+        opts = (opts[0], opts[1], False)   # connectivity only: no resonance
+    conv = _conv(opts)
+    with guard("C12/exported/convert"):
+        g0 = conv(mol)
+    ren = Chem.RenumberAtoms(mol, [int(p) for p in perm])
+    with guard("C12/exported/convert-renumbered"):
+        g1 = conv(ren)
+    with guard("C12/exported/eq"):
+        e = (g0 == g1) and (g1 == g0)
+    kinds = sorted({d[0][:4] + ("?" if d[2] is None else "")
+                    for d in m.atom_stereo.values()})
+    tag = "+".join(kinds) or "none"
+    if not e:
+        raise Violation(f"C12/exported-renumbered-unequal/{tag}",
+                        f"exported molecule renumbered by {perm}: imports "
+                        f"differ")
+    with guard("C12/exported/hash"):
+        if hash(g0) != hash(g1):
+            raise Violation(f"C12/exported-renumbered-hash-differs/{tag}", "")
+    nont = sum(1 for d in m.atom_stereo.values()
+               if d[0] != "Tetrahedral") >= 2
+    return {"nontrivial": nont, "tag": tag}
+
+
 def check_case(ctx, case):
     if case["kind"] == "labels":
         return check_labels(ctx, case)
+    if case["kind"] == "exported":
+        return check_exported(ctx, case)
     return check_respell(ctx, case)
 
 
@@ -382,6 +450,14 @@ def run(ctx):
 
     ctx.hyp("c12", S.mapped(900, gen), check, ctx.scale(2400, 60000),
             ddmin=False)
+
+    def check_x(case):
+        res = check_exported(ctx, case)
+        ctx.note(case, res["nontrivial"], ["kind:exported",
+                                           f"exported:{res['tag']}"])
+
+    ctx.hyp("c12-exported", S.mapped(1200, gen_exported), check_x,
+            ctx.scale(1500, 40000), ddmin=False)
 
     # ---- all label pairs
     tp = S.seed_tape(ctx.seed * 7 + 1)
